@@ -103,6 +103,7 @@ class Run:
         prop_files = prop_files or [f"Props/{self.pid}.v"]
         targets = [p[:-2] + ".vo" for p in prop_files] + list(extra_targets)
         ok, log = C.coq_build(targets)
+        self.build_ok = ok
         self.cov["checker_cmd"] = (
             f"cd /verif/coq && coq_makefile -f _CoqProject -o Makefile && make -j{C.NCPU} "
             + " ".join(targets)
